@@ -815,6 +815,9 @@ func (e *SEnv) call(n *ECall) Val {
 			return Val{T: sAnd(sNot(sEq(m.T, "0")), sSel(sSel(c.arrIn(e.st, md), m.T), k.T)), S: SBool}
 		case "fresh":
 			a := e.tr(n.Args[0])
+			if a.S == SSlice {
+				a = Val{T: sx("sref", a.T), S: SInt}
+			}
 			return Val{T: sAnd(sx("<=", e.old.alloc, a.T), sx("<", a.T, e.st.alloc)), S: SBool}
 		case "allocated":
 			a := e.tr(n.Args[0])
